@@ -28,6 +28,10 @@ FAMILIES = [
     [C('x'), R('.')],
     [R('[^x]'), S('xy')],
     [R('\\x80+'), C('a')],
+    # repetition counts of two and three digits (the count is read digit by digit)
+    [R('[0-9]{12}'), C('-')],
+    [R('a{10}'), R('a+b')],
+    [R('x{101}'), C('x')],
 ]
 
 
